@@ -300,6 +300,24 @@ def edge_cases():
     add("uint32", 1, (3, 1, 1), (2, 1, 1), [5, 5, 3], "padding with the most frequent value")
     add("uint32", 1, (3, 3, 1), (2, 2, 1), [7, 1, 7, 1, 7, 1, 7, 1, 4], "padding tie -> first maximum")
     add("uint32", 2, (4, 2, 2), (2, 2, 2), [1, 1, 2, 2] * 8, "identical tables in blocks and channels")
+    # blocks whose voxel count does not fill the last 32-bit word of the packed indices, for every bit width,
+    # followed by another block (and another channel) so that a short or long block shifts everything after it
+    add("uint32", 1, (14, 7, 7), (7, 7, 7), [(i * 5) % 343 + 1000 * (i // 343) for i in range(686)],
+        "16 bits, 343 voxels per block (odd): last word half used")
+    add("uint64", 2, (7, 14, 7), (7, 7, 7), [2 ** 40 + (i * 3) % 343 for i in range(1372)],
+        "16 bits, odd block, 2 channels, uint64")
+    add("uint32", 1, (9, 9, 10), (9, 9, 5), [(i * 7) % 405 for i in range(810)], "16 bits, 405 voxels per block")
+    add("uint32", 2, (6, 3, 3), (3, 3, 3), [(i * 5) % 27 for i in range(108)], "8 bits, 27 voxels per block")
+    add("uint64", 1, (6, 3, 1), (3, 3, 1), [(i * 2) % 9 for i in range(18)], "4 bits, 9 voxels per block")
+    add("uint32", 2, (6, 1, 1), (3, 1, 1), [1, 2, 3, 4, 5, 6, 1, 2, 3, 3, 2, 1], "2 bits, 3 voxels per block")
+    add("uint32", 1, (9, 1, 1), (3, 1, 1), [1, 2, 1, 4, 4, 5, 7, 7, 7], "1 and 0 bits, 3 voxels per block")
+    # labels that depend on one coordinate only, remainders on two axes: border blocks of DIFFERENT shapes
+    # (8x4x8 and 4x8x8 voxels) hold the same sequence of values before padding
+    add("uint32", 1, (12, 12, 8), (8, 8, 8), [i % 12 for i in range(1152)], "label = fastest coordinate, two remainders")
+    add("uint32", 1, (12, 12, 8), (8, 8, 8), [(i // 12) % 12 for i in range(1152)], "label = middle coordinate")
+    add("uint64", 1, (12, 12, 8), (8, 8, 8), [2 ** 33 + i // 144 for i in range(1152)], "label = slowest coordinate")
+    add("uint32", 1, (8, 12, 12), (8, 8, 8), [i // 96 for i in range(1152)], "label = slowest coordinate, remainders y z")
+    add("uint32", 1, (12, 8, 12), (8, 8, 8), [(i // 12) % 8 for i in range(1152)], "label = middle coordinate, remainders x z")
     return out
 
 
@@ -522,7 +540,13 @@ def run_sessions(R, quick):
             # a rejected buffer in between must not disturb anything either
             if rng.random() < 0.3:
                 outcome_of(lambda: enc.decode(snaps[i][:-1], plan[i]))
-            decs.append((i, enc.decode(snaps[i], plan[i])))
+            try:
+                decs.append((i, enc.decode(snaps[i], plan[i])))
+            except Exception as exc:  # noqa: BLE001
+                R.violation("the package decoder refuses bytes its own encoder returned (session)",
+                            {"dt": dt, "C": C, "blk": blk, "shapes": plan, "index": i,
+                             "data": [x.tobytes() for x in arrays], "note": "session"},
+                            {"exc": type(exc).__name__, "bytes": snaps[i]})
         case0 = {"dt": dt, "C": C, "blk": blk, "shapes": plan, "order": order,
                  "data": [x.tobytes() for x in arrays], "note": "session"}
         R.case(case0, nontrivial=True)
